@@ -149,9 +149,14 @@ def judge(t, v):
     for (nec, ndl), r in res.items():
         if r[0] != "ok":
             continue
-        # only restricts: every weaker flag combination also converts, to an equal value of the same type
+        # only restricts: what converts under the flag(s) converts without them, to an equal value of the same type (the
+        # statement's comparison: against the parse with neither flag).  For the builtin targets the model proves more
+        # (C12_no_data_loss_only_restricts / C12_no_explicit_cast_only_restricts hold for each value of the other flag), so
+        # there every weaker combination is compared; for the standard-library targets outside the model the property does not
+        # order the two single-flag parses against the double-flag one
+        full_lattice = t in PYT.values()
         for (nec2, ndl2), r2 in res.items():
-            if (nec2 <= nec) and (ndl2 <= ndl) and (nec2, ndl2) != (nec, ndl):
+            if (nec2 <= nec) and (ndl2 <= ndl) and (nec2, ndl2) != (nec, ndl) and (full_lattice or (nec2, ndl2) == (False, False)):
                 if r2[0] != "ok":
                     return "converts to %r under (nec=%s, ndl=%s) but fails under the weaker (nec=%s, ndl=%s)" % (r[1], nec, ndl, nec2, ndl2)
                 if not same(r[1], r2[1]):
